@@ -65,7 +65,7 @@ Definition outcome_of (has_default : bool) (f : found rval) : outcome :=
   | NoMatch => if has_default then ODefault else ONoRule
   end.
 
-(** [faithful = true]: the code as it is (C02-F1); [false]: repaired *)
+(** [faithful = true]: the pinned code before fix e897fef (C02-F1); [false]: the code as it is now *)
 Definition find_rule (faithful : bool) (d : db rval) (has_default : bool) (path : str) (m : matcher rval) : outcome :=
   outcome_of has_default (find_in faithful d path m).
 
@@ -207,7 +207,11 @@ Definition fresh_db (ops : list hop) : db rval :=
   fold_left upsert_op (flat_map (fun x => ruleset_adds (fst x) (snd x)) (final_sets ops)) [].
 
 (** finding C02-F3 (= C06-F1 seen from C02) can show only if some expression matching the path
-    holds its rules in another order than a fresh load of the rule sets in force *)
+    holds its rules in another order than a fresh load of the rule sets in force.  The guard is an
+    over-approximation: it fires on ANY difference between the routes the history left on a
+    matching expression and those of the fresh load (other order, other content, or the
+    expression missing from the fresh load); it lives in the evaluator and in [C02_F3_refuted]
+    only, no positive theorem of C02 is stated under it (C06 owns that statement) *)
 Definition guard_F3 (hd fd : db rval) (path : str) : bool :=
   existsb (fun e => matchesb (fst e) path &&
                     match assoc (fst e) fd with
